@@ -1,5 +1,6 @@
 import BV.Lemmas.StreamFrame
 import BV.Lemmas.StreamSched3
+import BV.Lemmas.StreamSchedMd2
 /-
 C05 — Output bytes depend on input, settings and call points only, not on buffering.
 
@@ -12,7 +13,7 @@ no allocator and no profile in it); input-chunking independence at quality ≥ 2
 requests are issued and is exercised differentially.  Those parts are validated by the harness
 (pairs of histories compared byte for byte) and labelled as such in the registration.
 
-Full statement, PROVED for PROCESS / FLUSH / FINISH requests (`out_slicing_irrelevant`,
+Full statement, PROVED for PROCESS / FLUSH / FINISH / EMIT_METADATA requests (`out_slicing_irrelevant`,
 `out_slicing_irrelevant_seq`): for a request — or a sequence of requests — driven to completion under
 any schedule of output capacities and `take_output` calls, the bytes produced and the final state
 (everything but the output cursor, the pending bytes' location, `total_out_` and the size of
@@ -20,9 +21,10 @@ any schedule of output capacities and `take_output` calls, the bytes produced an
 the machine on abstract configurations (core state, all bytes produced, input left) — a function in
 which no capacity occurs; every atomic step of the real machine (Lemmas/StreamLts) is a stutter
 (bytes move to the caller) or exactly `ustep`; so every run walks along the one trajectory of
-`ustep`, and two complete runs end at the same point.  EMIT_METADATA requests are not in this
-theorem: for them C04 proves the conservation law `metadata_verbatim_*` (delivered ++ owed is
-invariant under every slicing).  The earlier per-step ingredients are kept below.
+`ustep`, and two complete runs end at the same point.  EMIT_METADATA requests
+(`out_slicing_irrelevant_md`, `out_slicing_irrelevant_seq_md`): the same simulation onto `ustepM`
+after one normalisation (in METADATA_BODY the payload not yet consumed counts as produced —
+Lemmas/StreamSchedMd*).  The earlier per-step ingredients are kept below.
 -/
 namespace BV.Props.C05
 open BV.Stream BV.Bits
@@ -206,6 +208,92 @@ theorem out_slicing_irrelevant_seq {o : Oracle} (reqs : List (Nat × Bytes)) :
         obtain ⟨e1, e2, _⟩ := out_slicing_irrelevant hop1 hB1 hB2 hc ho hd1 hd2 hf1 hf2
         exact ih hr1 hr2 e1 e2
 
+/-! ### EMIT_METADATA requests -/
+
+/-- **every run of a metadata request refines the abstract metadata machine**: an EMIT_METADATA request
+driven from a call boundary under ANY schedule (capacities 0, 1, …, so that the payload goes out
+directly, through the 16-byte `tiny_buf_`, or both; `take_output` of any size at any point) stands on
+the trajectory of the capacity-free machine `ustepM` on normalised configurations (`absRM`: in
+METADATA_BODY the payload not yet consumed counts as produced): before the completion of the block,
+or — flag `true` — exactly one step past it, that step being the one that completed the block. -/
+theorem schedule_refines_abstract_md {o : Oracle} {fuel : Nat} {sched : List SchedStep} {s s' : St}
+    {chunk rem' del del' : Bytes} {d' : Bool} (hB : BndM s chunk)
+    (h : driveReq o fuel 3 sched s chunk del false = some (s', rem', del', d')) :
+    RPathM o (absRM s chunk del) (absRM s' rem' del') d' ∧ BndM s' rem'
+    ∧ (d' = true → s'.pending = [] ∧ s'.streamState = .processing) :=
+  drive_rpathM (o := o) (fuel := fuel) (absRM s chunk del) sched s chunk del false s' rem' del' d' hB ⟨0, .nil _⟩
+    (fun hh => by cases hh) h
+
+/-- **out_slicing_irrelevant for EMIT_METADATA** (full strength, one request): two runs of the same
+metadata request from call boundaries that agree abstractly (same core state — which may hold
+buffered, not yet flushed input —, same bytes produced so far), under two arbitrary schedules and
+fuels, each run complete (flag `true`: its last call returned in PROCESSING, the block is closed),
+END IN THE SAME CONFIGURATION: equal core states, equal bytes produced (delivered ++ pending: the
+flushed meta-block if input was buffered, the header, the payload), equal input left. -/
+theorem out_slicing_irrelevant_md {o : Oracle} {fuel1 fuel2 : Nat} {sched1 sched2 : List SchedStep}
+    {s1 s2 s1' s2' : St} {chunk del1 del2 rem1 rem2 del1' del2' : Bytes}
+    (hB1 : BndM s1 chunk) (hB2 : BndM s2 chunk)
+    (hcore : core s1 = core s2) (hout : del1 ++ s1.pending = del2 ++ s2.pending)
+    (h1 : driveReq o fuel1 3 sched1 s1 chunk del1 false = some (s1', rem1, del1', true))
+    (h2 : driveReq o fuel2 3 sched2 s2 chunk del2 false = some (s2', rem2, del2', true)) :
+    core s1' = core s2' ∧ del1' ++ s1'.pending = del2' ++ s2'.pending ∧ rem1 = rem2 := by
+  have ha : absRM s1 chunk del1 = absRM s2 chunk del2 := absRM_of_core chunk hcore hout
+  obtain ⟨r1, _, e1⟩ := schedule_refines_abstract_md hB1 h1
+  obtain ⟨r2, _, e2⟩ := schedule_refines_abstract_md hB2 h2
+  rw [ha] at r1
+  have := rpathM_done_eq r1 r2
+  have n1 : s1'.streamState ≠ .metadataBody := by rw [(e1 rfl).2]; simp
+  have n2 : s2'.streamState ≠ .metadataBody := by rw [(e2 rfl).2]; simp
+  unfold absRM at this
+  rw [absM_of_not_body n1, absM_of_not_body n2] at this
+  simp only [absOf, Io.start, List.append_nil, Abs.mk.injEq] at this
+  exact ⟨this.1, this.2.1, this.2.2.1⟩
+
+/-- a sequence of requests of ALL FOUR kinds, each driven to completion under its own schedule -/
+inductive DrivenAll (o : Oracle) : List (Nat × Bytes) → St → Bytes → St → Bytes → Prop
+  | nil (s : St) (del : Bytes) : DrivenAll o [] s del s del
+  | req {op fuel : Nat} {chunk : Bytes} {sched : List SchedStep} {rest : List (Nat × Bytes)}
+      {s s1 s' : St} {del rem1 del1 del' : Bytes} {d1 : Bool} :
+      op ≤ 2 → Bnd op s chunk →
+      driveReq o fuel op sched s chunk del false = some (s1, rem1, del1, d1) →
+      (d1 = true ∨ ustep o op (absR s1 rem1 del1) = none) →
+      DrivenAll o rest s1 del1 s' del' → DrivenAll o ((op, chunk) :: rest) s del s' del'
+  | md {fuel : Nat} {chunk : Bytes} {sched : List SchedStep} {rest : List (Nat × Bytes)}
+      {s s1 s' : St} {del rem1 del1 del' : Bytes} :
+      BndM s chunk →
+      driveReq o fuel 3 sched s chunk del false = some (s1, rem1, del1, true) →
+      DrivenAll o rest s1 del1 s' del' → DrivenAll o ((3, chunk) :: rest) s del s' del'
+
+/-- **out_slicing_irrelevant** (full strength, request sequences with metadata): two complete drivings
+of the same sequence of PROCESS / FLUSH / FINISH / EMIT_METADATA requests — different capacity
+schedules, different `take_output` interleavings, different fuels — from abstractly equal starts
+deliver the same bytes (delivered ++ still pending) and end in the same abstract state -/
+theorem out_slicing_irrelevant_seq_md {o : Oracle} (reqs : List (Nat × Bytes)) :
+    ∀ {s1 s2 s1' s2' : St} {del1 del2 del1' del2' : Bytes},
+      DrivenAll o reqs s1 del1 s1' del1' → DrivenAll o reqs s2 del2 s2' del2' →
+      core s1 = core s2 → del1 ++ s1.pending = del2 ++ s2.pending →
+      core s1' = core s2' ∧ del1' ++ s1'.pending = del2' ++ s2'.pending := by
+  induction reqs with
+  | nil =>
+    intro s1 s2 s1' s2' del1 del2 del1' del2' h1 h2 hc ho
+    cases h1; cases h2
+    exact ⟨hc, ho⟩
+  | cons r rest ih =>
+    intro s1 s2 s1' s2' del1 del2 del1' del2' h1 h2 hc ho
+    cases h1 with
+    | req hop1 hB1 hd1 hf1 hr1 =>
+      cases h2 with
+      | req hop2 hB2 hd2 hf2 hr2 =>
+        obtain ⟨e1, e2, _⟩ := out_slicing_irrelevant hop1 hB1 hB2 hc ho hd1 hd2 hf1 hf2
+        exact ih hr1 hr2 e1 e2
+      | md hB2 hd2 hr2 => omega
+    | md hB1 hd1 hr1 =>
+      cases h2 with
+      | req hop2 hB2 hd2 hf2 hr2 => omega
+      | md hB2 hd2 hr2 =>
+        obtain ⟨e1, e2, _⟩ := out_slicing_irrelevant_md hB1 hB2 hc ho hd1 hd2
+        exact ih hr1 hr2 e1 e2
+
 /-! ### non-vacuity -/
 
 example : (fastEncode {} {} { bits := [true, false, true] } { site := 2, lo := 0, hi := 0, isLast := false, forceFlush := false } 0 true false false).2.out
@@ -223,5 +311,39 @@ def exCheck (r : Option (St × Bytes × Bytes × Bool)) : Bool :=
   | none => false
 example : exCheck (driveReq exOracle 60 2 [.call 100] exStart [1, 2, 3] [] false) = true := by decide
 example : exCheck (driveReq exOracle 60 2 [.call 1, .take 1, .call 1, .take 0, .call 1, .call 1, .take 0] exStart [1, 2, 3] [] false) = true := by decide
+
+/-- a metadata request on a fresh encoder is at a call boundary -/
+example : BndM exStart [7, 8, 9] := bndM_fresh (setParameter_fresh ⟨{}, rfl⟩ 1 5) (by decide)
+/-- the flag a drive ends with -/
+def exDone (r : Option (St × Bytes × Bytes × Bool)) : Bool :=
+  match r with
+  | some (s, rem, _, d) => d && rem.isEmpty && decide (s.streamState = .processing)
+  | none => false
+/-- everything a drive has produced (delivered ++ pending) -/
+def exBytes (r : Option (St × Bytes × Bytes × Bool)) : Bytes :=
+  match r with
+  | some (s, _, del, _) => del ++ s.pending
+  | none => []
+/-- the state after PROCESS [1, 2, 3] (input buffered, nothing emitted yet) -/
+def exBuffered : St :=
+  match driveReq exOracle 60 0 [.call 100] exStart [1, 2, 3] [] false with
+  | some (s, _, _, _) => s
+  | none => exStart
+example : exBuffered.inputPos = 3 ∧ exBuffered.lastFlushPos = 0 := by decide
+/-- three schedules of one EMIT_METADATA request of 20 bytes behind buffered input (ample room; one
+byte of room per call; no room at all and `take_output`, i.e. through the 16-byte `tiny_buf_`): all
+run, complete, and — as the theorem says — produce the same bytes -/
+def exPayload : Bytes := List.range 20
+example : exDone (driveReq exOracle 80 3 [.call 100] exBuffered exPayload [] false) = true := by decide
+def exSchedOne : List SchedStep := List.replicate 25 (.call 1)
+def exSchedTiny : List SchedStep := (List.replicate 5 [SchedStep.call 0, .take 0]).flatten
+def exSchedTiny3 : List SchedStep := (List.replicate 11 [SchedStep.call 0, .take 3]).flatten
+example : exDone (driveReq exOracle 80 3 exSchedOne exBuffered exPayload [] false) = true := by decide
+example : exDone (driveReq exOracle 80 3 exSchedTiny exBuffered exPayload [] false) = true := by decide
+example : exDone (driveReq exOracle 80 3 exSchedTiny3 exBuffered exPayload [] false) = true := by decide
+example : exBytes (driveReq exOracle 80 3 [.call 100] exBuffered exPayload [] false)
+    = exBytes (driveReq exOracle 80 3 exSchedTiny3 exBuffered exPayload [] false) := by decide
+example : exBytes (driveReq exOracle 80 3 [.call 100] exBuffered exPayload [] false)
+    = [251, 255, 255, 214, 4] ++ exPayload := by decide
 
 end BV.Props.C05
